@@ -62,15 +62,15 @@ Proof. exact feasible_result. Qed.
 
 (* a ValueError only if no placement of the permitted cut kinds meets the width limit.
    Hypotheses = the property's domain: multi-qubit gates are supported two-qubit gates (kappa known), no classical bits,
-   valid settings, at least one cut kind allowed.  (The proof shows more: the greedy pass can only dead-end when gate cuts
-   are not allowed and W = 1, where every plan leaves some two-qubit gate joining two segments.) *)
+   valid settings; ALL four combinations of allowed cut kinds.  (The proof shows more: the greedy pass can only dead-end
+   (a) with wire cuts alone and W = 1, where every plan leaves some two-qubit gate joining two segments, or (b) with no cut
+   kind allowed, at a gate whose two subcircuits together exceed W - and they are one component of the uncut circuit.) *)
 Theorem c07_fails_only_if_infeasible : forall fuel i,
   find_cuts_full fuel i = Ref ->
   let t := fi_gtab i in let c := fi_circ i in
   circ_wf c -> circ_plain c ->
   (forall x, In x c -> is_multi x = true -> kappa_of t x <> None) ->
   fi_ncl i = 0 -> 1 <= fi_W i -> settings_ok i = true ->
-  (fi_gate_lo i = true \/ fi_wire_lo i = true) ->
   forall p, plan_permitted t (fi_gate_lo i) (fi_wire_lo i) c p -> ~ feasible (fi_W i) (render t p c).
 Proof. exact fails_only_if_infeasible. Qed.
 
